@@ -111,6 +111,86 @@ fn check_cone(run: &Run, s: &Sym, mirror: bool, h: u32, t: u32, reduced: bool) {
     }
 }
 
+/// F2[H] coefficients (h = H, t = 0): the complex is read entry by entry, evaluated at H = 0 and
+/// H = 1 with reference arithmetic, and the dimensions of its homology over F2 must be those of
+/// the reference cone built directly with h = 0 / 1.  Also d∘d = 0 and homogeneity (deg H = -2).
+fn check_cone_poly(run: &Run, s: &Sym, reduced: bool) {
+    use vcore::refmat::RMat;
+    use yui::poly::{Mono, Poly};
+    type PH = Poly<'H', FF2>;
+    let key = format!("khi:{}:F2[H]:red={}", s.name, reduced as u8);
+    let detail = || json!({"pd": s.code, "ring": "F2[H]", "reduced": reduced});
+    run.add("evaluations", 1);
+    let read = catch(|| {
+        let l = InvLink::sinv_knot_from_code(s.code.clone());
+        let c = KhIComplex::<PH>::new(&l, &PH::variable(), &PH::from_const(FF2::from(0)), reduced);
+        c.check_d_all();
+        let degs: Vec<isize> = c.support().collect();
+        let mut out: BTreeMap<isize, (usize, usize, Vec<(usize, usize, Vec<usize>)>, Vec<isize>)> = BTreeMap::new();
+        for &i in &degs {
+            let m = c.d_matrix(i);
+            let qs: Vec<isize> = c[i].raw_gens().iter().map(|x| x.q_deg()).collect();
+            let mut e = vec![];
+            for (r, col, a) in m.iter() {
+                let exps: Vec<usize> = a.iter().filter(|(_, v)| !num_traits::Zero::is_zero(*v)).map(|(x, _)| x.deg()).collect();
+                if !exps.is_empty() {
+                    e.push((r, col, exps));
+                }
+            }
+            out.insert(i, (yui_matrix::MatTrait::nrows(&m), yui_matrix::MatTrait::ncols(&m), e, qs));
+        }
+        (degs, out)
+    });
+    let (degs, dm) = match read {
+        Ok(x) => x,
+        Err(p) => {
+            run.fail(&key, &format!("construction or d∘d check panicked: {p}"), detail());
+            return;
+        }
+    };
+    // homogeneity
+    for &i in &degs {
+        let (_, _, e, qs) = &dm[&i];
+        if let Some((_, _, _, qs1)) = dm.get(&(i + 1)) {
+            for (r, c, exps) in e {
+                for a in exps {
+                    if qs1[*r] - 2 * (*a as isize) != qs[*c] {
+                        run.fail(&format!("{key}:qdeg"), &format!("d[{i}] entry ({r},{c}) H^{a}: q {} -> {}", qs[*c], qs1[*r]), detail());
+                    }
+                }
+            }
+        }
+    }
+    let base = reduced.then(|| s.labels.iter().position(|&l| l == 1).unwrap());
+    for h0 in [0u32, 1] {
+        run.add("evaluations", 1);
+        let Some(reference) = khovanov_involutive(&s.d, &s.tau, &Fp(h0), &Fp(0), base) else {
+            eprintln!("MACHINERY ERROR: reference involution is not a chain map on {}", s.name);
+            std::process::exit(3);
+        };
+        let mut rk: BTreeMap<isize, usize> = BTreeMap::new();
+        for &i in &degs {
+            let (m, n, e, _) = &dm[&i];
+            let mut mat = RMat::<Fp<2>>::zero(*m, *n);
+            for (r, c, exps) in e {
+                // evaluate the polynomial entry at H = h0 (characteristic 2)
+                let v = exps.iter().filter(|a| h0 == 1 || **a == 0).count() % 2;
+                mat.set(*r, *c, Fp(v as u32));
+            }
+            rk.insert(i, if *m > 0 && *n > 0 { mat.invariant_factors_by_elimination().len() } else { 0 });
+        }
+        let dims: BTreeMap<i64, usize> = degs
+            .iter()
+            .map(|&i| (i as i64, dm[&i].1 - rk[&i] - rk.get(&(i - 1)).copied().unwrap_or(0)))
+            .filter(|x| x.1 > 0)
+            .collect();
+        let want = total_dims(&reference.total);
+        if dims != want {
+            run.fail(&format!("{key}:H={h0}"), &format!("complex over F2[H] evaluated at H={h0} has homology dimensions {dims:?}, the reference cone has {want:?}"), detail());
+        }
+    }
+}
+
 fn check_sym_kh(run: &Run, s: &Sym, h: u32, t: u32, reduced: bool) {
     if reduced && t != 0 {
         return;
@@ -242,6 +322,9 @@ fn main() {
                 check_sym_kh(&run, s, h, t, reduced);
             }
         }
+        for reduced in [false, true] {
+            check_cone_poly(&run, s, reduced);
+        }
         check_ssi(&run, s);
     });
     let coverage = json!({
@@ -255,7 +338,7 @@ fn main() {
         coverage,
         &[
             "reference tau: edges by the loader's formula, crossings by edge sets, circles by edge images; the reference checks that its tau is a chain map (d∘d = 0 in the cone) before it is used",
-            "F2[H] coefficients are covered through the ssi invariants (c = H) only; the cone comparison is over F2 with all four (h,t)",
+            "F2[H] coefficients (h = H, t = 0): d∘d = 0, homogeneity, and evaluation at H = 0, 1 against the reference cone; plus the ssi invariants with c = H",
         ],
     );
 }
